@@ -35,6 +35,8 @@ CONSTANTS Vers,        \* subset of {"sasl","sasl2"}
           Kinds, Froms, Tos,   \* stanza alphabet ...
           Stanzas,     \* ... and the <<kind, from, to>> triples a configuration uses (AllStanzas = all of them)
           MaxPending,  \* bound on outstanding checker replies
+          MaxRetry,    \* refused authentication attempts the server tolerates on one stream before it
+                       \* closes it (RFC 6120, 6.4.5).  0 = the bundled server: the first refusal closes.
           MaxHist      \* bound on behaviour length (generator configurations only)
 
 VARIABLES c,          \* the connection: [phase, authed, res, st, ver, xuser, b2]
@@ -71,6 +73,9 @@ Challenge(v) == E(IF v = "sasl2" THEN "challenge2" ELSE "challenge")
 \* with (the attacker knows the password of its own accounts only):
 \*   right, wrongPw, ownEmpty            the own account: its password, a wrong one, the empty one
 \*   otherUser, victimEmpty              the victim: the attacker's password, the empty one
+\*   victimOwnSecret                     the victim's NAME, the response computed from the attacker's own
+\*                                       secret hash MD5(attacker:realm:attacker-password) (DIGEST-MD5; for
+\*                                       PLAIN the same payload as otherUser)
 \*   unknownPw, unknownEmpty             no such account ("nobody"): some password, the empty one
 \*   embedEmpty, embedBareEmpty, embedSlashEmpty   no such account, the NAME embeds the victim's address
 \*                                       ("victim@example.org/y", "victim@example.org", "victim/y"), empty password
@@ -85,7 +90,7 @@ ShapeCreds == {"malformed", "empty"}
 EmbedCreds == {"embedEmpty", "embedBareEmpty", "embedSlashEmpty", "embedKnown"}
 Asks(cr)   == cr \notin ShapeCreds \cup EmbedCreds      \* credentials that reach the password checker
 Nobody     == "nobody"
-UserOf(cr) == CASE cr \in {"otherUser", "victimEmpty"} -> Vic      \* whose name the credentials carry
+UserOf(cr) == CASE cr \in {"otherUser", "victimEmpty", "victimOwnSecret"} -> Vic      \* whose name the credentials carry
                 [] cr \in {"unknownPw", "unknownEmpty"} -> Nobody
                 [] OTHER -> Att
 Right(cr)  == cr = "right"                              \* ... and whether the secret is that user's password
@@ -101,6 +106,7 @@ NearOwnFroms == {"ownOtherRes", "ownSibling", "ownCase", "ownSlash", "ownPrefix"
 MidStanzas  == ({"message", "iq"} \X {"absent", "own", "victim"} \X {"victimFull", "domain"})
                \cup ({"message"} \X NearOwnFroms \X {"victimFull"})
 OneStanza   == {<<"message", "absent", "victimFull">>}
+NoStanzas   == {}
 \* exhaustive configuration: everything for the five basic classes, the near-own classes (which the
 \* model treats alike: dropped) towards the victim's full JID
 McStanzas   == (Kinds \X (Froms \ NearOwnFroms) \X Tos) \cup (Kinds \X NearOwnFroms \X {"victimFull"})
@@ -110,7 +116,7 @@ FromStanzas == {"message", "iq"} \X Froms \X {"victimFull"}
 \* no exchange in progress: the fields describing one are back to their defaults
 Idle(c0) == [c0 EXCEPT !.st = "none", !.ver = "sasl", !.xuser = "", !.b2 = FALSE]
 
-C0 == [phase |-> "init", authed |-> "", res |-> "", st |-> "none", ver |-> "sasl", xuser |-> "", b2 |-> FALSE]
+C0 == [phase |-> "init", authed |-> "", res |-> "", st |-> "none", ver |-> "sasl", xuser |-> "", b2 |-> FALSE, nfail |-> 0]
 
 Init ==
     /\ c = C0 /\ pending = <<>> /\ routes = {J(Vic, VicRes)} /\ approved = {} /\ proved = {}
@@ -130,6 +136,17 @@ CloseWith(h, o) ==
     Step(h, [Idle(c) EXCEPT !.phase = "closed"], pending,
          routes \ {J(c.authed, c.res)}, approved, o \o <<E("close")>>, <<>>,
          IF c.authed # "" THEN <<[s |-> "disconnected", j |-> J(c.authed, c.res)]>> ELSE <<>>)
+
+\* A SASL failure (refused or malformed credentials, unknown mechanism, response out of order).
+\* With retries allowed the stream stays open, but the exchange is OVER: the SASL server object and
+\* whatever it has learnt (user name, fetched digest) and every outstanding checker reply are
+\* discarded; the client has to start again with <auth/>.
+SaslFail(h, o, p) ==
+    IF c.nfail < MaxRetry
+    THEN Step(h, [Idle(c) EXCEPT !.nfail = c.nfail + 1], StaleAll(p), routes, approved, o, <<>>, <<>>)
+    ELSE Step(h, [Idle(c) EXCEPT !.phase = "closed"], p, routes \ {J(c.authed, c.res)}, approved,
+              o \o <<E("close")>>, <<>>,
+              IF c.authed # "" THEN <<[s |-> "disconnected", j |-> J(c.authed, c.res)]>> ELSE <<>>)
 
 \* intended: a stanza (bind and session included) from a connection that is not authenticated
 NotAuthorized(h) == CloseWith(h, <<E("streamerror")>>)
@@ -165,12 +182,12 @@ Auth(v, m, cr, b) ==
     IN
     /\ c.phase = "open"
     /\ (b => v = "sasl2") /\ (m # "PLAIN" => cr = "empty")
-    /\ CASE m \in {"X-UNKNOWN", "ANONYMOUS"} -> CloseWith(h, <<Fail(v)>>)
-         [] m = "PLAIN" /\ cr = "malformed" -> CloseWith(h, <<Fail(v)>>)
+    /\ CASE m \in {"X-UNKNOWN", "ANONYMOUS"} -> SaslFail(h, <<Fail(v)>>, pending)
+         [] m = "PLAIN" /\ cr = "malformed" -> SaslFail(h, <<Fail(v)>>, pending)
          [] m = "PLAIN" /\ cr = "empty" ->
                 Step(h, [c EXCEPT !.st = "plainWait", !.ver = v, !.b2 = b, !.xuser = ""], StaleAll(pending),
                      routes, approved, <<Challenge(v)>>, <<>>, <<>>)
-         [] m = "PLAIN" /\ cr \in EmbedCreds -> CloseWith(h, <<Fail(v)>>)     \* not a localpart: refused unasked
+         [] m = "PLAIN" /\ cr \in EmbedCreds -> SaslFail(h, <<Fail(v)>>, pending)     \* not a localpart: refused unasked
          [] m = "PLAIN" /\ Asks(cr) ->
                 /\ Len(pending) < MaxPending
                 /\ Step(h, [c EXCEPT !.st = "check", !.ver = v, !.b2 = b, !.xuser = UserOf(cr)], ask,
@@ -187,18 +204,18 @@ Response(v, cr) ==
         mine == c.st # "none"
     IN
     /\ c.phase = "open"
-    /\ CASE ~mine -> CloseWith(h, <<Fail(v)>>)                 \* response without an exchange
+    /\ CASE ~mine -> SaslFail(h, <<Fail(v)>>, pending)                 \* response without an exchange
          \* (an empty response makes the PLAIN object ask again, which the response branch treats as a failure)
-         [] mine /\ c.st = "plainWait" /\ cr \in {"empty", "malformed"} -> CloseWith(h, <<Fail(v)>>)
-         [] mine /\ c.st = "plainWait" /\ cr \in EmbedCreds -> CloseWith(h, <<Fail(c.ver)>>)
+         [] mine /\ c.st = "plainWait" /\ cr \in {"empty", "malformed"} -> SaslFail(h, <<Fail(v)>>, pending)
+         [] mine /\ c.st = "plainWait" /\ cr \in EmbedCreds -> SaslFail(h, <<Fail(c.ver)>>, pending)
          [] mine /\ c.st = "plainWait" /\ Asks(cr) ->
                 /\ Len(pending) < MaxPending
                 /\ Step(h, [c EXCEPT !.st = "check", !.xuser = UserOf(cr)],
                         Append(pending, [op |-> "check", user |-> UserOf(cr), ok |-> Right(cr), cr |-> cr, stale |-> FALSE, ver |-> c.ver]),
                         routes, approved, <<>>, <<>>, <<>>)
-         [] mine /\ c.st = "check" -> CloseWith(h, <<Fail(v)>>)   \* PLAIN server object is past its only step
-         [] mine /\ c.st \in {"digestWait", "digestCheck"} /\ cr \in {"empty", "malformed"} -> CloseWith(h, <<Fail(v)>>)
-         [] mine /\ c.st \in {"digestWait", "digestCheck"} /\ cr \in EmbedCreds -> CloseWith(h, <<Fail(c.ver)>>)
+         [] mine /\ c.st = "check" -> SaslFail(h, <<Fail(v)>>, pending)   \* PLAIN server object is past its only step
+         [] mine /\ c.st \in {"digestWait", "digestCheck"} /\ cr \in {"empty", "malformed"} -> SaslFail(h, <<Fail(v)>>, pending)
+         [] mine /\ c.st \in {"digestWait", "digestCheck"} /\ cr \in EmbedCreds -> SaslFail(h, <<Fail(c.ver)>>, pending)
          [] mine /\ c.st \in {"digestWait", "digestCheck"} /\ Asks(cr) ->
                 \* the digest of the named user is requested; verification happens when it arrives
                 /\ Len(pending) < MaxPending
@@ -218,17 +235,13 @@ Reply(i) ==
     /\ CASE e.stale -> Step(h, c, p2, routes, approved, <<>>, <<>>, <<>>)     \* intended: not this exchange's reply
          [] ~e.stale /\ e.op = "check" /\ e.ok  -> Accept(h, e.user, p2, c.ver)
          [] ~e.stale /\ e.op = "check" /\ ~e.ok ->
-                Step(h, [Idle(c) EXCEPT !.phase = "closed"], p2, routes \ {J(c.authed, c.res)}, approved,
-                     <<Fail(e.ver), E("close")>>, <<>>,
-                     IF c.authed # "" THEN <<[s |-> "disconnected", j |-> J(c.authed, c.res)]>> ELSE <<>>)
+                SaslFail(h, <<Fail(e.ver)>>, p2)
          [] ~e.stale /\ e.op = "digest" /\ e.ok /\ c.st = "digestCheck" ->
                 \* response verified against the digest: rspauth challenge
                 Step(h, [c EXCEPT !.st = "digestFinal", !.xuser = e.user], p2, routes, approved \cup {e.user},
                      <<Challenge(c.ver)>>, <<>>, <<>>)
          [] ~e.stale /\ e.op = "digest" /\ ~(e.ok /\ c.st = "digestCheck") ->
-                Step(h, [Idle(c) EXCEPT !.phase = "closed"], p2, routes \ {J(c.authed, c.res)}, approved,
-                     <<Fail(e.ver), E("close")>>, <<>>,
-                     IF c.authed # "" THEN <<[s |-> "disconnected", j |-> J(c.authed, c.res)]>> ELSE <<>>)
+                SaslFail(h, <<Fail(e.ver)>>, p2)
 
 (* --- <abort/> --------------------------------------------------------------- *)
 \* As built: the SASL namespace has no abort handler at all; the SASL 2 handler answers
